@@ -7,7 +7,8 @@
    - IEEE rounding: the implementation is compared with the exact model within a stated tolerance only;
    - np.random inside the antiparallel branch: the theorems hold for EVERY unit vector orthogonal to v2, the
      choice itself is hidden state (determinism is C12's business);
-   - the user-supplied alignment callback (Kabsch/SVD) is described by Section hypotheses, not verified;
+   - the user-supplied alignment callback (Kabsch/SVD) is described by hypotheses (its contract), not verified;
+     the ensemble variant of align_to_ref_coords is tied by correspondence only (same model, conformer-wise);
    - arctan2 itself: "the dihedral is t" is stated as "(arg1, arg2) = rho (sin t, cos t) with rho > 0";
    - which atoms yield_bfs selects (graph search: C15) -- `sel` is a parameter, constrained by hypotheses. *)
 From Coq Require Import Reals Lra List ZArith Lia.
@@ -155,14 +156,8 @@ Print Assumptions C11_center_at_core_origin.
 (* ---- alignment -------------------------------------------------------------------------------------- *)
 (* Under the stated contract of the user-supplied callback (a proper rotation + the deviation that rotation
    achieves), Molecule.align_to_ref_coords returns the deviation of the pose it leaves (before the optional
-   final shift), that value is the least among the candidate mappings, and the molecule moved rigidly.
-   FULL STATEMENT WANTED BY THE PROPERTY, second half not proved (partial):
-     "and the value returned does not depend on the initial pose":
-       forall M w, proper M ->
-         option_map snd (align func (translate w (transform M X)) idxs ref v) = option_map snd (align func X idxs ref v)
-     (needs the further callback hypothesis  snd (func (transform M P) Q) = snd (func P Q));
-   it is judged on the implementation by the Python oracle (random re-posing) on every run. *)
-Theorem C11_align_reports_partial
+   final shift), that value is the least among the candidate mappings, and the molecule moved rigidly. *)
+Theorem C11_align_reports
   (dev : list vecR -> list vecR -> R) (func : list vecR -> list vecR -> matR * R) :
   (forall P Q, proper (fst (func P Q))) ->
   (forall P Q, snd (func P Q) = dev (transform ROps (fst (func P Q)) P) Q) ->
@@ -176,7 +171,19 @@ Theorem C11_align_reports_partial
     (forall idx', In idx' idxs -> r <= snd (func (select ROps idx' (align_centered ROps X (hd [] idxs))) ref)) /\
     same_shape X X'.
 Proof. exact (align_reports dev func). Qed.
-Print Assumptions C11_align_reports_partial.
+Print Assumptions C11_align_reports.
+
+(* ... and the value returned does not depend on the initial pose of the molecule: re-posing the input by any
+   rigid motion x |-> x M + w gives the same result, provided the callback's reported deviation is itself
+   invariant under rotating its first argument (true of every optimal-superposition routine). *)
+Theorem C11_align_pose_independent (func : list vecR -> list vecR -> matR * R) :
+  (forall P Q M, proper M -> snd (func (transform ROps M P) Q) = snd (func P Q)) ->
+  forall (X : list vecR) (idxs : list (list nat)) (ref : list vecR) (v : option vecR) (M : matR) (w : vecR),
+  proper M -> hd [] idxs <> [] -> (forall i, In i (hd [] idxs) -> (i < length X)%nat) ->
+  option_map snd (align ROps func (translate ROps w (transform ROps M X)) idxs ref v)
+  = option_map snd (align ROps func X idxs ref v).
+Proof. exact (align_pose_independent func). Qed.
+Print Assumptions C11_align_pose_independent.
 
 (* ---- the hypotheses are satisfiable by non-trivial data --------------------------------------------- *)
 Example C11_ex_rodrigues :
